@@ -173,6 +173,24 @@ static void bitset_probe(std::string const& which, u64 pos, Out& impl)
     });
 }
 
+// an iterator over a character array that is NOT a pointer and NOT random access (forward-only, multi-pass):
+// append(first, last) / basic_inplace_string(first, last) / assign(first, last) have no up-front length check for it
+template <typename Char>
+struct FwdIt {
+    using iterator_category = etl::forward_iterator_tag;
+    using value_type        = Char;
+    using difference_type   = std::ptrdiff_t;
+    using pointer           = Char const*;
+    using reference         = Char const&;
+    Char const* p;
+    auto operator*() const -> Char const& { return *p; }
+    auto operator->() const -> Char const* { return p; }
+    auto operator++() -> FwdIt& { ++p; return *this; }
+    auto operator++(int) -> FwdIt { auto t = *this; ++p; return t; }
+    friend auto operator==(FwdIt a, FwdIt b) -> bool { return a.p == b.p; }
+    friend auto operator!=(FwdIt a, FwdIt b) -> bool { return a.p != b.p; }
+};
+
 // ---- vector probes: initial content 1..k in a static_vector<int,4> / inplace_vector<int,4>
 // element type with a non-trivial destructor (selects static_vector's non-trivial storage); bytes comparable
 struct NT {
@@ -239,6 +257,11 @@ static void vec_probe(Toks& in, Out& impl, Out& ref)
         else if (op == "emp") { v.emplace(v.begin() + A(0), 9); }
         else if (op == "inn") { int c = 9; v.insert(v.begin() + A(0), static_cast<std::size_t>(U(1)), c); }
         else if (op == "irg") { v.insert(v.begin() + A(0), src, src + A(1)); }
+        // ranges given by forward-only iterators: no up-front length check is possible without walking the range, the
+        // elements are appended until emplace_back's own check fires (the vector IS modified by then unless it was full)
+        else if (op == "irg_fwd") { v.insert(v.begin() + A(0), FwdIt<int>{src}, FwdIt<int>{src + A(1)}); }
+        else if (op == "asr_fwd") { v.assign(FwdIt<int>{src}, FwdIt<int>{src + A(0)}); }
+        else if (op == "ctor_rg_fwd") { etl::static_vector<int, 4> w(FwdIt<int>{src}, FwdIt<int>{src + A(0)}); sink = static_cast<long long>(w.size()); }
         else if (op == "era") { v.erase(v.begin() + A(0)); }
         else if (op == "err") { v.erase(v.begin() + A(0), v.begin() + A(1)); }
         else if (op == "rsz") { v.resize(static_cast<std::size_t>(U(0))); }
@@ -266,6 +289,13 @@ static void vec_probe(Toks& in, Out& impl, Out& ref)
     else if (op == "rsz" || op == "rsv" || op == "asn" || op == "ctor_n" || op == "ctor_nv") { pre = U(0) <= 4; }
     else if (op == "asr" || op == "ctor_rg") { pre = A(0) >= 0 && A(0) <= 4; }
     else if (op == "at" || op == "cat") { pre = U(0) < sz; }
+    if (op == "irg_fwd") {
+        bool const fits = static_cast<u64>(A(1)) <= room;
+        ref.tok(pos_ok(A(0)) && fits ? "ok" : ((!pos_ok(A(0)) || room == 0) ? "contract 1" : "contract 0"));
+        return;
+    }
+    if (op == "asr_fwd") { ref.tok(A(0) <= 4 ? "ok" : "contract 0"); return; }
+    if (op == "ctor_rg_fwd") { pre = A(0) <= 4; }
     doc(ref, pre);
 }
 
@@ -322,6 +352,50 @@ static bool str_probe_n(long long k, std::string const& op, std::vector<u64> con
     else if (op == "asg_fill") { run([&] { s.assign(Z(0), C('z')); }); pre = A(0) <= cap; }
     else if (op == "asg_ptr") { run([&] { s.assign(SRCC, Z(0)); }); pre = A(0) <= cap; }
     else if (op == "asg_view_sub") { SV v(SRCC, Z(0)); run([&] { s.assign(v, Z(1), Z(2)); }); pre = A(1) <= A(0) && minu(A(2), A(0) - A(1)) <= cap; }
+    // the range / view / C-string constructors and assignments (0c6dc7f: the range constructor appends with append(first, last))
+    else if (op == "ctor_cstr") { auto const* c = cstr(A(0)); watch_ctor<S>(impl, [&](void* at) { auto* t = new (at) S(c); sink = static_cast<long long>(t->size()); }); pre = minu(A(0), SRCLEN) <= cap; }
+    else if (op == "ctor_rng") { watch_ctor<S>(impl, [&](void* at) { auto* t = new (at) S(SRCC, SRCC + A(0)); sink = static_cast<long long>(t->size()); }); pre = A(0) <= cap; }
+    else if (op == "ctor_rng_rev") { watch_ctor<S>(impl, [&](void* at) { auto* t = new (at) S(SRCC + A(0), SRCC); sink = static_cast<long long>(t->size()); }); pre = A(0) == 0; }
+    else if (op == "ctor_rev") {
+        using R = etl::reverse_iterator<C const*>;
+        watch_ctor<S>(impl, [&](void* at) { auto* t = new (at) S(R(SRCC + A(0)), R(SRCC)); sink = static_cast<long long>(t->size()); }); pre = A(0) <= cap;
+    }
+    else if (op == "ctor_fwd") { watch_ctor<S>(impl, [&](void* at) { auto* t = new (at) S(FwdIt<C>{SRCC}, FwdIt<C>{SRCC + A(0)}); sink = static_cast<long long>(t->size()); }); pre = A(0) <= cap; }
+    else if (op == "ctor_view") { SV v(SRCC, Z(0)); watch_ctor<S>(impl, [&](void* at) { auto* t = new (at) S(v); sink = static_cast<long long>(t->size()); }); pre = A(0) <= cap; }
+    else if (op == "ctor_view_sub") {
+        SV v(SRCC, Z(0)); watch_ctor<S>(impl, [&](void* at) { auto* t = new (at) S(v, Z(1), Z(2)); sink = static_cast<long long>(t->size()); });
+        pre = A(1) <= A(0) && minu(A(2), A(0) - A(1)) <= cap;
+    }
+    else if (op == "ctor_str_sub") { S o(SRCC, Z(0)); watch_ctor<S>(impl, [&](void* at) { auto* t = new (at) S(o, Z(1), Z(2)); sink = static_cast<long long>(t->size()); }); }
+    else if (op == "ctor_str_pos") { S o(SRCC, Z(0)); watch_ctor<S>(impl, [&](void* at) { auto* t = new (at) S(o, Z(1)); sink = static_cast<long long>(t->size()); }); }
+    else if (op == "asg_cstr2") { auto const* c = cstr(A(0)); run([&] { s.assign(c); }); pre = minu(A(0), SRCLEN) <= cap; }
+    else if (op == "asg_rng") { run([&] { s.assign(SRCC, SRCC + A(0)); }); pre = A(0) <= cap; }
+    else if (op == "asg_rng_rev") { run([&] { s.assign(SRCC + A(0), SRCC); }); pre = A(0) == 0; }
+    else if (op == "asg_rev") { using R = etl::reverse_iterator<C const*>; run([&] { s.assign(R(SRCC + A(0)), R(SRCC)); }); pre = A(0) <= cap; }
+    else if (op == "asg_fwd") { run([&] { s.assign(FwdIt<C>{SRCC}, FwdIt<C>{SRCC + A(0)}); }); pre = A(0) <= cap; }
+    else if (op == "asg_view") { SV v(SRCC, Z(0)); run([&] { s.assign(v); }); pre = A(0) <= cap; }
+    else if (op == "opeq_view") { SV v(SRCC, Z(0)); run([&] { s = v; }); pre = A(0) <= cap; }
+    else if (op == "opeq_ch") { run([&] { s = C('z'); }); pre = 1 <= cap; }
+    else if (op == "asg_str_sub") { S o(SRCC, Z(0)); run([&] { s.assign(o, Z(1), Z(2)); }); }
+    // append(first, last) with iterators that are not pointers: reverse_iterator (random access: checked up front) and a
+    // forward-only iterator (no up-front check: characters are appended until push_back's own precondition fires, so
+    // the string IS modified when the handler runs unless it was already full — documented at append(first, last))
+    else if (op == "app_rev") { using R = etl::reverse_iterator<C const*>; run([&] { s.append(R(SRCC + A(0)), R(SRCC)); }); pre = size + A(0) <= cap; }
+    else if (op == "app_fwd") {
+        run([&] { s.append(FwdIt<C>{SRCC}, FwdIt<C>{SRCC + A(0)}); });
+        if (known) { ref.tok(size + A(0) <= cap ? "ok" : (size == cap ? "contract 1" : "contract 0")); }
+        return true;
+    }
+    // operator+ (same capacity): a copy of the left operand, then append(rhs) -> append(first, last); other capacity /
+    // C string / character: the clamping overloads, never fire
+    else if (op == "plus_str") { S o(SRCC, Z(0)); run([&] { sink = static_cast<long long>((s + o).size()); }); pre = size + A(0) <= cap; }
+    else if (op == "plus_cstr") { auto const* c = cstr(A(0)); run([&] { sink = static_cast<long long>((s + c).size()); }); }
+    else if (op == "plus_ch") { run([&] { sink = static_cast<long long>((s + C('z')).size()); }); }
+    else if (op == "app_view") { SV v(SRCC, Z(0)); run([&] { s.append(v); }); }
+    else if (op == "app_cstr") { auto const* c = cstr(A(0)); run([&] { s.append(c); }); }
+    else if (op == "pluseq_ch") { run([&] { s += C('z'); }); }
+    else if (op == "resize1") { run([&] { s.resize(Z(0)); }); }
+    else if (op == "copy") { C dest[32]; run([&] { sink = static_cast<long long>(s.copy(dest, Z(0) > 26 ? 26 : Z(0), Z(1))); }); }
     else if (op == "front") { run([&] { sink = s.front(); }); pre = size > 0; }
     else if (op == "cfront") { run([&] { sink = static_cast<S const&>(s).front(); }); pre = size > 0; }
     else if (op == "back") { run([&] { sink = s.back(); }); pre = size > 0; }
@@ -380,6 +454,15 @@ static bool str_probe(Toks& in, Out& impl, Out& ref)
     return str_probe_n<20, char>(k, op, a, impl, ref);
 }
 
+static bool u16str_probe(Toks& in, Out& impl, Out& ref)
+{
+    auto cap = in.num(); auto k = in.num(); auto op = in.str();
+    std::vector<u64> a;
+    while (in.more()) { a.push_back(in.sz()); }
+    if (cap == 15) { return str_probe_n<15, char16_t>(k, op, a, impl, ref); }
+    return str_probe_n<16, char16_t>(k, op, a, impl, ref);
+}
+
 static bool wstr_probe(Toks& in, Out& impl, Out& ref)
 {
     auto cap = in.num(); auto k = in.num(); auto op = in.str();
@@ -399,6 +482,16 @@ static bool more_probe(std::string const& op, Toks& in, Out& impl, Out& ref)
         int const* first = vals + 4;
         watch_none(impl, [&] { etl::static_set<int, 4> st(first, first + d); sink = static_cast<long long>(st.size()); });
         doc(ref, d >= 0 && d <= 4);
+        return true;
+    }
+    if (op == "sset_dup") {
+        // a range of d elements that holds only two distinct keys: the distinct elements always fit, but the constructor
+        // checks the LENGTH of a random access range against max_size() (conservative; the header documents no
+        // precondition, std::set accepts any valid range) — pinned as it is, no reference / spec answer beyond max_size()
+        auto d = in.num();
+        static int const dup[12] = {5, 3, 5, 3, 5, 3, 5, 3, 5, 3, 5, 3};
+        watch_none(impl, [&] { etl::static_set<int, 4> st(dup, dup + d); sink = static_cast<long long>(st.size()); });
+        if (d >= 0 && d <= 4) { doc(ref, true); } else { ref.tok("na"); }
         return true;
     }
     if (op == "cpy") {
@@ -452,16 +545,29 @@ static bool more_probe(std::string const& op, Toks& in, Out& impl, Out& ref)
         doc(ref, r < 2);
         return true;
     }
-    if (op == "bsstr") {
-        // bitset<8>(string_view of the given characters, pos, n, '0', '1')
+    if (op == "bsstr" || op == "bsstr2" || op == "bscstr") {
+        // bsstr:  bitset<8>(string_view of the given characters, pos, n)            (zero = '0', one = '1')
+        // bsstr2: bitset<2>(wstring_view of the given characters, pos, n, L'0', L'2'): more characters than bits (ALL of
+        //         the min(n, size - pos) characters are checked, not only the 2 that are used), other zero / one, wide
+        // bscstr: bitset<8>(char const*, n): the C-string overload (n == npos: up to the terminator, else n characters)
         auto chars = in.list(); auto pos = in.sz(); auto n = in.sz();
         std::string text; for (auto c : chars) { text.push_back(static_cast<char>(c)); }
-        etl::string_view v(text.data(), text.size());
-        watch_none(impl, [&] { etl::bitset<8> b(v, static_cast<std::size_t>(pos), static_cast<std::size_t>(n)); sink = static_cast<long long>(b.count()); });
+        std::wstring wtext(text.begin(), text.end());
+        char one = op == "bsstr2" ? '2' : '1';
+        if (op == "bscstr") {
+            if (pos != 0 || (n != ~0ULL && n > text.size())) { return false; }
+            watch_none(impl, [&] { etl::bitset<8> b(text.c_str(), static_cast<std::size_t>(n)); sink = static_cast<long long>(b.count()); });
+        } else if (op == "bsstr2") {
+            etl::wstring_view v(wtext.data(), wtext.size());
+            watch_none(impl, [&] { etl::bitset<2> b(v, static_cast<std::size_t>(pos), static_cast<std::size_t>(n), L'0', L'2'); sink = static_cast<long long>(b.count()); });
+        } else {
+            etl::string_view v(text.data(), text.size());
+            watch_none(impl, [&] { etl::bitset<8> b(v, static_cast<std::size_t>(pos), static_cast<std::size_t>(n)); sink = static_cast<long long>(b.count()); });
+        }
         bool pre = pos <= text.size();
         if (pre) {
             u64 rlen = n < text.size() - pos ? n : text.size() - pos;
-            for (u64 i = 0; i < rlen; ++i) { char c = text[static_cast<std::size_t>(pos + i)]; if (c != '0' && c != '1') { pre = false; } }
+            for (u64 i = 0; i < rlen; ++i) { char c = text[static_cast<std::size_t>(pos + i)]; if (c != '0' && c != one) { pre = false; } }
         }
         doc(ref, pre);
         return true;
@@ -545,13 +651,40 @@ static bool more_probe(std::string const& op, Toks& in, Out& impl, Out& ref)
     return false;
 }
 
+// ---- span: the compile-time forms first<Count>() / last<Count>() / subspan<Offset, Count>() on a span of dynamic
+//      extent (fix b24e9dc: the same run-time checks as first(count) / last(count) / subspan(offset, count)) and the
+//      run-time forms on a span of static extent
+template <typename Span, std::size_t... Is>
+static bool span_tfirst(Span s, u64 c, bool last, std::index_sequence<Is...>)
+{
+    return ((c == Is ? (sink = static_cast<long long>(last ? s.template last<Is>().size() : s.template first<Is>().size()), true) : false) || ...);
+}
+template <std::size_t Off, typename Span>
+static bool span_tsub_c(Span s, u64 c)
+{
+    constexpr std::size_t dyn = etl::dynamic_extent;
+    if (c == 0) { sink = static_cast<long long>(s.template subspan<Off, 0>().size()); return true; }
+    if (c == 1) { sink = static_cast<long long>(s.template subspan<Off, 1>().size()); return true; }
+    if (c == 2) { sink = static_cast<long long>(s.template subspan<Off, 2>().size()); return true; }
+    if (c == 3) { sink = static_cast<long long>(s.template subspan<Off, 3>().size()); return true; }
+    if (c == 4) { sink = static_cast<long long>(s.template subspan<Off, 4>().size()); return true; }
+    if (c == dyn) { sink = static_cast<long long>(s.template subspan<Off, dyn>().size()); return true; }
+    return false;
+}
+template <typename Span, std::size_t... Is>
+static bool span_tsub(Span s, u64 off, u64 c, std::index_sequence<Is...>)
+{
+    return ((off == Is ? span_tsub_c<Is>(s, c) : false) || ...);
+}
+
 bool vh::run_case(std::string const& op, Toks& in, Out& impl, Out& ref)
 {
     // every probe names the check that fires (header + expression text)
     probe::with_expr = true;
     if (op == "str") { return str_probe(in, impl, ref); }
     if (op == "wstr") { return wstr_probe(in, impl, ref); }
-    if (op == "sset" || op == "cpy" || op == "linalg" || op == "sstride" || op == "bsstr" || op == "tostr" || op == "fmt" || op == "exparrow" || op == "arrfb") { return more_probe(op, in, impl, ref); }
+    if (op == "u16str") { return u16str_probe(in, impl, ref); }
+    if (op == "sset" || op == "sset_dup" || op == "cpy" || op == "linalg" || op == "sstride" || op == "bsstr" || op == "bsstr2" || op == "bscstr" || op == "tostr" || op == "fmt" || op == "exparrow" || op == "arrfb") { return more_probe(op, in, impl, ref); }
     if (op == "vec") { vec_probe(in, impl, ref); return true; }
     if (op == "vec0") { vec_storage_probe<etl::static_vector<int, 0>, 0>(in, impl, ref); return true; }
     if (op == "vecnt") { vec_storage_probe<etl::static_vector<NT, 4>, 4>(in, impl, ref); return true; }
@@ -566,26 +699,36 @@ bool vh::run_case(std::string const& op, Toks& in, Out& impl, Out& ref)
         doc(ref, pre);
         return true;
     }
-    if (op == "span") {
+    if (op == "span" || op == "sspan") {
         auto n = in.num(); auto o = in.str(); auto a = in.sz(); auto b = in.sz();
         // exact-size heap allocation: under ASan a read one past the n elements (before the check) is a report
         std::unique_ptr<int[]> heap(new int[static_cast<std::size_t>(n)]);
         int* data = heap.get();
         for (long long i = 0; i < n; ++i) { data[i] = 10 + static_cast<int>(i); }
-        etl::span<int> s(data, static_cast<std::size_t>(n));
         u64 sz = static_cast<u64>(n);
-        watch(impl, s, [&] {
-            if (o == "front") { sink = s.front(); }
-            else if (o == "back") { sink = s.back(); }
-            else if (o == "idx") { sink = s[static_cast<std::size_t>(a)]; }
-            else if (o == "first") { sink = static_cast<long long>(s.first(static_cast<std::size_t>(a)).size()); }
-            else if (o == "last") { sink = static_cast<long long>(s.last(static_cast<std::size_t>(a)).size()); }
-            else { sink = static_cast<long long>(s.subspan(static_cast<std::size_t>(a), static_cast<std::size_t>(b)).size()); }
-        });
+        bool known = true;
+        auto probe_span = [&](auto s) {
+            constexpr bool dynamic = decltype(s)::extent == etl::dynamic_extent;
+            watch(impl, s, [&] {
+                if (o == "front") { sink = s.front(); }
+                else if (o == "back") { sink = s.back(); }
+                else if (o == "idx") { sink = s[static_cast<std::size_t>(a)]; }
+                else if (o == "first") { sink = static_cast<long long>(s.first(static_cast<std::size_t>(a)).size()); }
+                else if (o == "last") { sink = static_cast<long long>(s.last(static_cast<std::size_t>(a)).size()); }
+                else if (o == "tfirst" || o == "tlast") { if constexpr (dynamic) { known = span_tfirst(s, a, o == "tlast", std::make_index_sequence<7>{}); } else { known = false; } }
+                else if (o == "tsub") { if constexpr (dynamic) { known = span_tsub(s, a, b, std::make_index_sequence<6>{}); } else { known = false; } }
+                else { sink = static_cast<long long>(s.subspan(static_cast<std::size_t>(a), static_cast<std::size_t>(b)).size()); }
+            });
+        };
+        if (op == "span") { probe_span(etl::span<int>(data, static_cast<std::size_t>(n))); }
+        else if (n == 0) { probe_span(etl::span<int const, 0>(data, 0)); }     // span of static extent (size() is the template argument)
+        else if (n == 3) { probe_span(etl::span<int const, 3>(data, 3)); }
+        else { return false; }
+        if (!known) { return false; }
         bool pre = true;
         if (o == "front" || o == "back") { pre = sz > 0; }
         else if (o == "idx") { pre = a < sz; }
-        else if (o == "first" || o == "last") { pre = a <= sz; }
+        else if (o == "first" || o == "last" || o == "tfirst" || o == "tlast") { pre = a <= sz; }
         else { pre = a <= sz && (b == ~0ULL || static_cast<unsigned __int128>(a) + b <= sz); }
         doc(ref, pre);
         return true;
